@@ -748,6 +748,9 @@ where
                     vec![]
                 }
             }
+            TsType::TsParenthesizedType(TsParenthesizedType { type_ann, .. }) => {
+                self.resolve_string_or_union_strings(type_ann)
+            }
             _ => {
                 HANDLER
                     .with(|handler| handler.span_err(ty.span(), "Unsupported type as index key."));
